@@ -48,7 +48,8 @@ inductive Op where
   | copyCopy (src : Nat)                       -- copy.copy(x)
   | selfOp (src : Nat)                         -- x & x, x | x  (the `bs is self → self.copy()` shortcut)
   | derive (cls : Cls) (src : Nat) (g : Bits → Bits)  -- slice, +, ~, *, <<, join, pack, unpack, read, cut … : new store
-  | fromExt (cls : Cls) (b : Bits)             -- cls(bytearray/bitarray/array/memoryview): buffer kept by the caller
+  | fromExt (cls : Cls) (b : Bits) (g : Bits → Bits)  -- cls(bytearray/bitarray/array/memoryview [, offset, length]):
+                                               -- buffer `b` kept by the caller, object holds the window `g b`
   | toExt (src : Nat)                          -- x.tobitarray()
   | mutate (obj : Nat) (g : Bits → Bits)       -- in-place mutator on a mutable object
   | rebind (obj : Nat) (g : Bits → Bits)       -- mutator that gives the object a new store (clear, <<=, *= …)
@@ -177,10 +178,10 @@ def step (h : Heap) : Op → Heap
     | some o =>
       let (h', sid) := alloc h ⟨g (storeBits h o.sid), false⟩
       addObj h' ⟨cls, sid⟩
-  | .fromExt cls b =>
+  | .fromExt cls b g =>
     let (h1, e) := alloc h ⟨b, false⟩                -- the caller's buffer
     let h2 := { h1 with exts := h1.exts ++ [e] }
-    let (h3, sid) := alloc h2 ⟨b, false⟩             -- BitStore.frombytes(bytearray(s)) / bitarray(s): a copy
+    let (h3, sid) := alloc h2 ⟨g b, false⟩           -- BitStore.frombytes(bytearray(s)) / bitarray(s): a copy
     initObj h3 cls sid
   | .toExt src =>
     match h.objs[src]? with
@@ -219,11 +220,11 @@ def refCountObjs (h : Heap) (sid : Nat) : Nat := (h.objs.filter (·.sid = sid)).
 def inCache (h : Heap) (sid : Nat) : Bool := h.cache.any (·.2 = sid)
 def refCountExts (h : Heap) (sid : Nat) : Nat := (h.exts.filter (· = sid)).length
 
-/-- Every store id in use exists; a store held by a mutable object is held by nothing else and is not
-    flagged immutable; a store held by an external buffer is held by nothing else. -/
+/-- Every store id in use exists; cached stores are flagged immutable; a store held by a mutable object is held
+    by nothing else and is not flagged immutable; a store held by an external buffer is held by nothing else. -/
 def Inv (h : Heap) : Prop :=
   (∀ o ∈ h.objs, o.sid < h.stores.length) ∧
-  (∀ e ∈ h.cache, e.2 < h.stores.length) ∧
+  (∀ e ∈ h.cache, e.2 < h.stores.length ∧ storeImm h e.2 = true) ∧
   (∀ s ∈ h.exts, s < h.stores.length) ∧
   (∀ o ∈ h.objs, o.cls.isMutable = true →
       refCountObjs h o.sid = 1 ∧ inCache h o.sid = false ∧ refCountExts h o.sid = 0 ∧ storeImm h o.sid = false) ∧
@@ -259,15 +260,25 @@ def parseOp (h : Heap) (s : String) : Option Op :=
       let j ← i.toNat?; let x ← a.toNat?; let y ← b.toNat?
       let o ← h.objs[j]?
       some (.derive o.cls j (fun l => (l.drop x).take (y - x)))
-  | ["same", c, i] => do some (.derive (← Cls.ofStr? c) (← i.toNat?) id)        -- +'' , *1, >>0, pack, unpack, join …
+  | ["same", c, i, _] => do some (.derive (← Cls.ofStr? c) (← i.toNat?) id)        -- +'' , *1, >>0, pack, unpack, join …
   | ["not", i] => do
       let j ← i.toNat?; let o ← h.objs[j]?
       some (.derive o.cls j (fun l => l.map (!·)))
-  | ["add", i, k] => do
-      let j ← i.toNat?; let o ← h.objs[j]?; let o2 ← h.objs[(← k.toNat?)]?
+  | ["cat", c, i, k, _] => do
+      let j ← i.toNat?; let o2 ← h.objs[(← k.toNat?)]?
       let other := storeBits h o2.sid
-      some (.derive o.cls j (fun l => l ++ other))
-  | ["ext", c, b] => do some (.fromExt (← Cls.ofStr? c) (← bitsOfStr? b))
+      some (.derive (← Cls.ofStr? c) j (fun l => l ++ other))
+  | ["ext", c, b, k] => do
+      let g : Bits → Bits := match k with
+        | "bytes_off8" => fun l => l.drop 8
+        | "bytes_len8" => fun l => l.take 8
+        | "bytes_off3" => fun l => l.drop 3
+        | _ => id
+      some (.fromExt (← Cls.ofStr? c) (← bitsOfStr? b) g)
+  | ["setprop", d, _, b] => do
+      let bb ← bitsOfStr? b
+      some (.rebind (← d.toNat?) (fun _ => bb))
+  | ["newkw", c, _, b] => do some (.new (← Cls.ofStr? c) (← bitsOfStr? b))
   | ["toba", i] => do some (.toExt (← i.toNat?))
   | ["mut", i, k] => do
       let (rb, g) ← mutKind k
